@@ -313,13 +313,13 @@ where
     /// ```
     pub fn disconnect(&self, other: &K) -> Result<E, Error> {
         match self.find_outbound(other) {
-            Some(other) => match self.inner.2.write().unwrap().remove_outbound(other.key()) {
-                Ok(edge) => {
-                    other.inner.2.write().unwrap().remove_inbound(self.key())?;
-                    Ok(edge)
-                }
-                Err(_) => Err(Error::EdgeNotFound),
-            },
+            Some(other) => {
+                // Release the lock of `self` before locking `other`: they are
+                // the same node when the edge is a self-loop.
+                let edge = self.inner.2.write().unwrap().remove_outbound(other.key())?;
+                other.inner.2.write().unwrap().remove_inbound(self.key())?;
+                Ok(edge)
+            }
             None => Err(Error::EdgeNotFound),
         }
     }
